@@ -31,16 +31,21 @@ const (
 	vkZoneP = "p."
 	vkZoneC = "c.p."
 	vkZoneG = "g.c.p."
+	vkZoneV = "v.p." // stable sibling delegation whose ONLY name-server host (nsv.c.p., no glue) lives under the leased zone
 
 	vkSrvRoot = "."
 	vkSrvP    = "p."
 	vkSrvCOld = "c-old"
 	vkSrvGOld = "g-old"
 	vkSrvCNew = "c-new"
+	vkSrvVOld = "v-old" // serves v.p. behind the address the OLD c.p. server publishes for nsv.c.p.
+	vkSrvVNew = "v-new" // serves v.p. behind the address the RE-POINTED c.p. server publishes for nsv.c.p.
 
 	vkAddrCOld = "192.0.2.30"
 	vkAddrGOld = "192.0.2.40"
 	vkAddrCNew = "192.0.2.50"
+	vkAddrVOld = "192.0.2.60"
+	vkAddrVNew = "192.0.2.70"
 
 	vkOldA    = "10.0.0.1" // www.c.p. at the old child
 	vkOldGA   = "10.0.0.2" // www.g.c.p. at the old grandchild
@@ -50,6 +55,9 @@ const (
 	vkGhost   = "ghost.c.p."
 	vkNSB     = "nsb.c.p." // second, glue-less NS host of the "twons" behaviour
 	vkLate    = "late.c.p."
+	vkNSV     = "nsv.c.p." // the glue-less NS host of v.p.: its address is learned through c.p.'s delegation
+	vkOldVA   = "10.0.0.3" // www.v.p. / w2.v.p. at v-old
+	vkNewVA   = "10.9.9.7" // www.v.p. / w2.v.p. at v-new (marker)
 )
 
 const (
@@ -115,6 +123,8 @@ type vkExchange struct {
 	SelfRef  bool
 	Negative bool // authoritative NXDOMAIN / NODATA
 	Lag      int
+	NSHost   string // glue-less referral (v.p.): the NS host named, Target stays ""
+	AddrOf   string // authoritative A answer for nsv.c.p.: the server behind the published address
 }
 
 func (e vkExchange) String() string {
@@ -122,6 +132,12 @@ func (e vkExchange) String() string {
 	switch {
 	case e.SelfRef:
 		s += " =self-referral"
+	case e.Referral != "" && e.NSHost != "":
+		s += fmt.Sprintf(" =referral(%s NS %s no-glue ns=%d", e.Referral, e.NSHost, e.NSTTL)
+		if e.HasDS {
+			s += fmt.Sprintf(" ds=%d", e.DSTTL)
+		}
+		s += ")"
 	case e.Referral != "":
 		s += fmt.Sprintf(" =referral(%s->%s ns=%d", e.Referral, e.Target, e.NSTTL)
 		if e.HasDS {
@@ -130,6 +146,9 @@ func (e vkExchange) String() string {
 		s += ")"
 	default:
 		s += " =" + dns.RcodeToString[e.Rcode]
+		if e.AddrOf != "" {
+			s += "(" + vkNSV + " is at " + e.AddrOf + ")"
+		}
 	}
 	if e.Lag > 0 {
 		s += fmt.Sprintf(" +lag%ds", e.Lag)
@@ -171,16 +190,29 @@ func vkUniverse(phase int, signed bool) *zonemodel.Universe {
 	p.Add("www A 10.0.0.9", "alias DNAME "+vkZoneC, "cn CNAME www."+vkZoneC, "cnx CNAME "+vkLate)
 	// the socket of the future c.p. server exists from the start (its zone "alt." is never asked for)
 	alt := zonemodel.ZoneSpec{Apex: "alt.", Mode: zonemodel.Unsigned, Server: vkSrvCNew, NSAddr: vkAddrCNew, TTL: vkRecTTL}
+	// v.p.: delegated by the stable parent in EVERY phase (NS TTL 3600, never withdrawn) to the single host nsv.c.p. —
+	// out of v.p.'s bailiwick, so the referral carries no glue and the address has to be resolved through c.p.'s
+	// delegation. The old c.p. server publishes nsv A -> v-old, the re-pointed one nsv A -> v-new (same keys, other
+	// marker); in the withdrawn phase nsv.c.p. does not exist (p. answers NXDOMAIN below c.p.) and v.p. has no
+	// reachable server. The socket of v-new exists from the start (zone "altv." is never asked for).
+	vSrv, vAddr, vA := vkSrvVOld, vkAddrVOld, vkOldVA
+	if phase == vkPhaseRepointed {
+		vSrv, vAddr, vA = vkSrvVNew, vkAddrVNew, vkNewVA
+	}
+	v := u.AddZone(zonemodel.ZoneSpec{Apex: vkZoneV, Mode: mode, Alg: alg, CSK: true, Server: vSrv, NSHost: vkNSV, NSAddr: vAddr, TTL: vkRecTTL})
+	v.Add("www A "+vA, "w2 A "+vA)
+	altv := zonemodel.ZoneSpec{Apex: "altv.", Mode: zonemodel.Unsigned, Server: vkSrvVNew, NSAddr: vkAddrVNew, TTL: vkRecTTL}
 	switch phase {
 	case vkPhaseOrig:
 		c := u.AddZone(zonemodel.ZoneSpec{Apex: vkZoneC, Mode: mode, Alg: alg, CSK: true, Server: vkSrvCOld, NSAddr: vkAddrCOld, TTL: vkRecTTL})
-		c.Add("www A "+vkOldA, "nsb A "+vkAddrCOld, "ghost A "+vkAddrCOld)
+		c.Add("www A "+vkOldA, "nsb A "+vkAddrCOld, "ghost A "+vkAddrCOld, "nsv A "+vkAddrVOld)
+		u.AddZone(altv)
 		g := u.AddZone(zonemodel.ZoneSpec{Apex: vkZoneG, Mode: mode, Alg: alg, CSK: true, Server: vkSrvGOld, NSAddr: vkAddrGOld, TTL: vkRecTTL})
 		g.Add("www A " + vkOldGA)
 		u.AddZone(alt)
 	case vkPhaseRepointed:
 		c := u.AddZone(zonemodel.ZoneSpec{Apex: vkZoneC, Mode: mode, Alg: alg, CSK: true, Server: vkSrvCNew, NSHost: "ns2.c.p.", NSAddr: vkAddrCNew, TTL: vkRecTTL})
-		c.Add("www A "+vkNewA, "late A "+vkNewLate)
+		c.Add("www A "+vkNewA, "late A "+vkNewLate, "nsv A "+vkAddrVNew)
 	case vkPhaseWithdrawn:
 		u.AddZone(alt)
 	}
@@ -200,7 +232,7 @@ func vkGetWorld(k vkWorldKey) (*vkWorld, error) {
 	if err != nil {
 		return nil, err
 	}
-	if sim.Addr(vkSrvCNew) == "" || sim.Addr(vkSrvCOld) == "" || sim.Addr(vkSrvGOld) == "" {
+	if sim.Addr(vkSrvCNew) == "" || sim.Addr(vkSrvCOld) == "" || sim.Addr(vkSrvGOld) == "" || sim.Addr(vkSrvVOld) == "" || sim.Addr(vkSrvVNew) == "" {
 		return nil, fmt.Errorf("C08: universe lacks a server socket")
 	}
 	w.sim = sim
@@ -225,6 +257,8 @@ func vkServerZone(server string) string {
 		return vkZoneC
 	case vkSrvGOld:
 		return vkZoneG
+	case vkSrvVOld, vkSrvVNew:
+		return vkZoneV
 	}
 	return "."
 }
@@ -259,6 +293,8 @@ func (w *vkWorld) honest(server string, q dns.Question, do bool) *dns.Msg {
 		} else {
 			m = w.u[vkPhaseOrig].ServerAnswer(vkSrvCNew, q, do)
 		}
+	case vkSrvVNew:
+		m = w.u[vkPhaseRepointed].ServerAnswer(vkSrvVNew, q, do) // whoever learns its address finds v.p. with the new marker
 	default:
 		m = w.u[vkPhaseOrig].ServerAnswer(server, q, do)
 	}
@@ -329,8 +365,26 @@ func (w *vkWorld) honest(server string, q dns.Question, do bool) *dns.Msg {
 		if cfg.Beh == "twons" && e.Referral == vkZoneC && phase == vkPhaseOrig {
 			m.Ns = append(m.Ns, &dns.NS{Hdr: dns.RR_Header{Name: vkZoneC, Rrtype: dns.TypeNS, Class: dns.ClassINET, Ttl: e.NSTTL}, Ns: vkNSB})
 		}
+	} else if e.Referral == vkZoneV {
+		// the stable sibling: TTLs as published (3600), no glue — the referral designates a HOST, not a server
+		for _, rr := range m.Ns {
+			switch x := rr.(type) {
+			case *dns.NS:
+				e.NSTTL, e.NSHost = x.Hdr.Ttl, zonemodel.Canon(x.Ns)
+			case *dns.DS:
+				e.DSTTL, e.HasDS = x.Hdr.Ttl, true
+			}
+		}
 	} else if e.Referral != "" {
 		e.Referral = "" // a referral for a zone outside the chain (never happens in this universe)
+	}
+	// the address of v.p.'s name-server host as published by whichever c.p. server was asked
+	if e.QName == vkNSV && q.Qtype == dns.TypeA && m.Authoritative {
+		for _, rr := range m.Answer {
+			if a, ok := rr.(*dns.A); ok {
+				e.AddrOf = w.sim.ServerOf(a.A.String() + ":53")
+			}
+		}
 	}
 	// DS answered by the parent side: same configured TTL as in the referral
 	if q.Qtype == dns.TypeDS && m.Authoritative && len(m.Answer) > 0 {
